@@ -162,8 +162,18 @@ def conform(T, case, values, compare_hidden=None):
 def evaluate_contract(case, values, outcome):
     """violated clause names of the contract on a concrete outcome of the *real* function
     (empty list = contract satisfied; None = inputs outside `requires`)"""
+    from . import npmodel
+
     mk = ConcMk(values)
     ctx = C.Ctx()
+    npmodel.STRICT_BOUNDS = False
+    try:
+        return _evaluate_contract(case, mk, ctx, outcome)
+    finally:
+        npmodel.STRICT_BOUNDS = True
+
+
+def _evaluate_contract(case, mk, ctx, outcome):
     with C.activate(ctx):
         env = case.declare(mk)
         if not mk.ok:
@@ -191,6 +201,8 @@ def evaluate_contract(case, values, outcome):
             n = _conc(res.n)
             for k in range(n):
                 for nm, f in case.post(env, res, k).items():
+                    if isinstance(f, tuple):
+                        f = f[0]
                     if _conc(f) is not True and ("post." + nm) not in bad:
                         bad.append("post." + nm)
         return bad
